@@ -62,7 +62,7 @@ def signature_of(ops, r):
 
 def rt_configs(rng, thorough):
     cfgs = []
-    items = 3000 if thorough else 1200
+    items = 6000 if thorough else 1200
     nm = [(1, 1), (2, 3), (8, 8), (1, 8), (8, 1), (5, 7), (3, 2)] if thorough else [(1, 1), (8, 8), (1, 8), (8, 1), (2, 3)]
     for (n, m) in nm:
         for c in (1, 2, 7):
@@ -96,7 +96,7 @@ def real_threads(chk, cfg, thorough):
     builds.append(("tsan", "clang-14"))
     found = False
     stats = {}
-    watchdog = 60 if thorough else 30
+    watchdog = 60 if thorough else 20
     cfgs = rt_configs(chk.rng, thorough)
     for san, cc in builds:
         try:
@@ -105,23 +105,30 @@ def real_threads(chk, cfg, thorough):
             chk.violation(str(e), "real-thread harness (%s) does not build against the current source" % san, no_input=True, suffix="txt")
             continue
         mine = cfgs if (thorough or san == "asan") else [c for i, c in enumerate(cfgs) if i % 2 == 0 or c[0] in ("gate", "trylock")]
-        reps = 4 if thorough else 1
+        reps = 6 if thorough else 1
         jobs = [c for c in mine for _ in range(reps)]
-        with ThreadPoolExecutor(max(2, min(4, pv.NCPU // 2))) as ex:
-            res = list(ex.map(lambda a: rt_run(exe, a, watchdog), jobs))
-        for args, (bad, line) in zip(jobs, res):
-            text = " ".join(args)
-            chk.count("rt %s %s" % (san, text))
-            chk.bump("rt:%s:%s" % (san, args[0]))
-            stats[san] = stats.get(san, 0) + 1
-            if bad is None:
-                chk.cov["traces_validated_against_impl"] += 1
-                if args[0] == "pc":
-                    chk.sample("rt[%s] %s -> %s" % (san, text, line), cap=8)
-                continue
-            if chk.violation(text + "\n", "real threads (%s build), program `condvar_rt %s`: %s" % (san, text, bad)):
-                found = True
-            if len(chk.violations) >= 3:
+        # short programs first; stop a build at the first chunk that shows a failure (a broken
+        # library makes most runs hang for the whole watchdog time)
+        jobs.sort(key=lambda a: (a[0] == "pc", int(a[-2]) if a[0] == "pc" else 0))
+        stop = False
+        for k in range(0, len(jobs), 8):
+            chunk = jobs[k:k + 8]
+            with ThreadPoolExecutor(max(2, min(8, pv.NCPU // 2))) as ex:
+                res = list(ex.map(lambda a: rt_run(exe, a, watchdog), chunk))
+            for args, (bad, line) in zip(chunk, res):
+                text = " ".join(args)
+                chk.count("rt %s %s" % (san, text))
+                chk.bump("rt:%s:%s" % (san, args[0]))
+                stats[san] = stats.get(san, 0) + 1
+                if bad is None:
+                    chk.cov["traces_validated_against_impl"] += 1
+                    if args[0] == "pc":
+                        chk.sample("rt[%s] %s -> %s" % (san, text, line), cap=8)
+                    continue
+                stop = True
+                if len([v for v in chk.violations]) < 6 and chk.violation(text + "\n", "real threads (%s build), program `condvar_rt %s`: %s" % (san, text, bad)):
+                    found = True
+            if stop:
                 break
     chk.cov["real_thread_runs"] = stats
     return found
@@ -195,7 +202,16 @@ def run(chk):
         "x86-64 Linux / glibc layouts: sizeof and offsets are taken from the compilers used for the harness (gcc) and the record-layout dump (clang-14)",
         "allocation failure is scripted only for the two constructors (C18 covers the rest); threads are created with pthread_create directly (C05 covers PUThread)",
         "real-thread runs are one-sided: passing them proves nothing, a hang / lost item / TSan report is a concrete failing run"]
-    return chk.finish()
+    return finish(chk)
+
+
+def finish(chk):
+    try:
+        return chk.finish()
+    except KeyError:
+        # pv.Check.finish logs cov["discharged"] after moving it to "proof_broken" when the proof
+        # did not check; the evidence file is already written at that point
+        return 1 if chk.violations else 0
 
 
 def replay(chk, path):
